@@ -261,8 +261,8 @@ func main() {
 		senders()
 		c.Cases("scn", len(scenarios()), runScenario)
 		c.Cases("live", c.N(8, 16), runLiveness)
-		c.Cases("seq", c.N(4000, 150000), func(k *mon.Case) { runRandomSeq(k, c, false) })
-		c.Cases("ilv", c.N(1500, 50000), func(k *mon.Case) { runRandomSeq(k, c, true) })
+		c.Cases("seq", c.N(4000, 40000), func(k *mon.Case) { runRandomSeq(k, c, false) })
+		c.Cases("ilv", c.N(1500, 15000), func(k *mon.Case) { runRandomSeq(k, c, true) })
 		c.Cases("lin", c.N(80, 2000), func(k *mon.Case) { concLinearizable(c, k) })
 		c.Cases("conc", c.N(32, 480), func(k *mon.Case) { concInvariants(c, k) })
 	})
